@@ -9,7 +9,7 @@ Model driver for C16 (`drv_grep`). Mirrors the ops of /repo/src/verif_hooks/grep
   grep.json_rec <kind> <xpath> <num|-> <xtext> <n> <a> <b> ...   parse_line on a RipGrepLine
   grep.json_meta <xtype>              parse_line on another JSON value with that "type"
   grep.json_invalid                   parse_line on something else
-  grep.fragment <kind> <xpath> <xdigits|-> <xcode>     which theorem fragment covers the record (A numbered / B unnumbered / C extension-less / -), model round trip, fmtPlain
+  grep.fragment <kind> <xpath> <xdigits|-> <xcode>     which theorem fragment covers the record (A numbered / B unnumbered, short extension, no blanks / B2 unnumbered, extension up to 10, blanks / C extension-less / -), model round trip, fmtPlain
   grep.fmt_coloured <kind> <xpath> <xdigits|-> <xcode> model round trip, fmtColoured
   grep.sections <xcode> <n> <a> <b> ...
   grep.expand_sections <tabw> <xcode> <n> <a> <b> ...
@@ -127,7 +127,8 @@ def stepGrep (line : String) : String :=
     match kindOfWord kind, charsOfField path, digits, charsOfField code with
     | some kind, some path, some digits, some code =>
       let p : Parsed := { path := path, kind := kind, digits := digits, code := code }
-      let frag := if fragNumbered p then "A" else if fragUnnumbered p then "B" else if fragNoExt p then "C" else "-"
+      let frag := if fragNumbered p then "A" else if fragUnnumbered p then "B" else if fragUnnumberedExt p then "B2"
+        else if fragNoExt p then "C" else "-"
       let rt := if parsePlain (fmtPlain p) = some p then "1" else "0"
       "ok " ++ frag ++ " " ++ rt ++ " " ++ hexChars (fmtPlain p)
     | _, _, _, _ => "ERR"
